@@ -32,6 +32,17 @@ func (c *Core) VerifBarriers() map[string]barrier.SecurityBarrier {
 }
 func (c *Core) VerifTokenStore() *TokenStore        { return c.tokenStore }
 
+// VerifDisablePhysicalCache switches the read cache in front of the physical
+// backend off (what disable_cache does in a server configuration; the test
+// constructor the harness uses does not pass that setting through).
+func (c *Core) VerifDisablePhysicalCache() {
+	c.cachingDisabled = true // post-unseal switches the cache back on otherwise
+	if c.physicalCache != nil {
+		c.physicalCache.SetEnabled(false)
+		c.physicalCache.Purge(context.Background())
+	}
+}
+
 // VerifNamespaceRootToken mints the kind of token root generation for a
 // namespace hands out: a token of namespace ns holding the root policy.
 func (c *Core) VerifNamespaceRootToken(ns *namespace.Namespace) (string, error) {
